@@ -108,7 +108,11 @@ UNSUPPORTED_BY_IMPL = {171}  # OP_CODESEPARATOR
 class Checker:
     """Transaction context for signature / timelock opcodes."""
 
-    def __init__(self, tx, idx, spent, curve=None):
+    def __init__(self, tx, idx, spent, curve=None, relaxed=False):
+        # relaxed: ignore the rules that only exist against malleability (NULLDUMMY, unexpected witness,
+        # non-empty scriptSig next to a valid witness, exact witness stack sizes / clean stack, explicit
+        # 0x00 sighash byte on a Schnorr signature).  What remains is authorisation.
+        self.relaxed = relaxed
         self.tx, self.idx, self.spent = tx, idx, spent
         self.curve = curve or ec.SECP
         self.annex = None
@@ -152,7 +156,7 @@ class Checker:
             ht = 0
         elif len(sig) == 65:
             ht = sig[64]
-            if ht == 0:
+            if ht == 0 and not self.relaxed:
                 raise ScriptError("schnorr sig hashtype 0 explicit")
             sig = sig[:64]
         else:
@@ -448,7 +452,7 @@ def eval_script(script, stack, checker, sigversion, altstack=None):
                 if rs > rk:
                     success = False
             del stack[-3 - nk - ns :]
-            if dummy != b"":
+            if dummy != b"" and not checker.relaxed:
                 raise ScriptError("nulldummy")
             if op == 175:
                 if not success:
@@ -518,7 +522,7 @@ def verify_witness_program(witness, version, program, checker, is_p2sh_wrapped):
             if hashlib.sha256(script).digest() != program:
                 raise ScriptError("witness program mismatch")
         elif len(program) == 20:
-            if len(stack) != 2:
+            if len(stack) != 2 and not (c.relaxed and len(stack) > 2):
                 raise ScriptError("witness program mismatch")
             script = b"\x76\xa9\x14" + program + b"\x88\xac"
         else:
@@ -526,7 +530,7 @@ def verify_witness_program(witness, version, program, checker, is_p2sh_wrapped):
         if any(len(x) > 520 for x in stack):
             raise ScriptError("push size")
         eval_script(script, stack, c, "v0")
-        if len(stack) != 1 or not cast_to_bool(stack[-1]):
+        if (len(stack) != 1 and not (c.relaxed and stack)) or not cast_to_bool(stack[-1]):
             raise ScriptError("witness eval false / cleanstack")
         return
     if version == 1 and len(program) == 32 and not is_p2sh_wrapped:
@@ -575,7 +579,7 @@ def verify_witness_program(witness, version, program, checker, is_p2sh_wrapped):
             if any(len(x) > 520 for x in stack):
                 raise ScriptError("push size")
             eval_script(script, stack, c, "tap")
-            if len(stack) != 1 or not cast_to_bool(stack[-1]):
+            if (len(stack) != 1 and not (c.relaxed and stack)) or not cast_to_bool(stack[-1]):
                 raise ScriptError("tapscript eval false / cleanstack")
         return  # unknown leaf version: anyone can spend
     # future witness versions / lengths: anyone can spend
@@ -605,17 +609,18 @@ def iter_ops_until_error(s):
             yield op, None
 
 
-def verify_input(tx, idx, spent, curve=None):
-    """True iff input idx of the abstract tx is a consensus-valid spend of spent[idx] = (amount, spk)."""
+def verify_input(tx, idx, spent, curve=None, relaxed=False):
+    """True iff input idx of the abstract tx is a consensus-valid spend of spent[idx] = (amount, spk).
+    relaxed=True: authorisation only (malleability-only rules ignored, see Checker)."""
     try:
-        _verify_input(tx, idx, spent, curve)
+        _verify_input(tx, idx, spent, curve, relaxed)
         return True
     except ScriptError:
         return False
 
 
-def _verify_input(tx, idx, spent, curve):
-    checker = Checker(tx, idx, spent, curve)
+def _verify_input(tx, idx, spent, curve, relaxed=False):
+    checker = Checker(tx, idx, spent, curve, relaxed)
     txin = tx["ins"][idx]
     script_sig = txin["script"]
     witness = txin.get("witness", []) if tx.get("segwit") else []
@@ -633,7 +638,7 @@ def _verify_input(tx, idx, spent, curve):
     wp = witness_program(spk)
     if wp is not None:
         had_witness = True
-        if script_sig != b"":
+        if script_sig != b"" and not relaxed:
             raise ScriptError("witness malleated")
         verify_witness_program(witness, wp[0], wp[1], checker, False)
     if p2sh:
@@ -647,10 +652,10 @@ def _verify_input(tx, idx, spent, curve):
         wp = witness_program(redeem)
         if wp is not None:
             had_witness = True
-            if script_sig != txref.push(redeem):
+            if script_sig != txref.push(redeem) and not relaxed:
                 raise ScriptError("witness malleated p2sh")
             verify_witness_program(witness, wp[0], wp[1], checker, True)
-    if not had_witness and witness:
+    if not had_witness and witness and not relaxed:
         raise ScriptError("witness unexpected")
 
 
